@@ -9,7 +9,7 @@ import subprocess
 
 import common as C
 
-THEOREMS = ['builder_roundtrip_partial', 'snapshot_stable_values', 'equal_states_equal_snapshots',
+THEOREMS = ['builder_roundtrip_partial', 'snapshot_immutable', 'snapshot_stable_values', 'equal_states_equal_snapshots',
             'ill_nested_errors', 'growth_irrelevant_partial']
 COQ_DIR = os.path.join(C.VERIF, 'c14', 'coq')
 COQ_LOGICAL = '-R %s/coq AwkV -R . AwkBuilder' % C.VERIF
